@@ -1,6 +1,6 @@
 (* C13 — pickle input is equivalent to the plain-text input for the same datapoints. *)
 From CRNG Require Import Base.ListX Base.Bytes Base.Decimal Model.PickleVM Model.Reencode Model.PickleIn Model.PyPickle
-  Proofs.ReencodeProofs Proofs.PickleInProofs Proofs.PickleIn4.
+  Proofs.ReencodeProofs Proofs.PickleInProofs Proofs.PickleIn1 Proofs.PickleIn0 Proofs.PickleIn4.
 Local Open Scope N_scope.
 
 (* Decoding (the og-rek machine, any text-float oracle) what CPython's pickler writes in protocol 2 or 3
@@ -34,7 +34,39 @@ Theorem C13_decode_what_python_encodes_protocol4 :
 Proof. exact unpickle_py_dumps4. Qed.
 Print Assumptions C13_decode_what_python_encodes_protocol4.
 
-(* one connection, any number of frames, each of protocol 2, 3 or 4 *)
+(* protocol 1 (binary opcodes, no PROTO header, tuples as MARK ... TUPLE) *)
+Theorem C13_decode_what_python_encodes_protocol1 :
+  forall pf ds, forallb dp_ok ds = true -> 3 * N.of_nat (length ds) + 1 < 4294967296 ->
+    unpickle pf false (py_dumps1 ds)
+    = RDone (VList (map (fun d => VTuple [VStr (d_name d); VTuple [num_val (d_ts d); num_val (d_val d)]]) ds)).
+Proof. exact unpickle_py_dumps1. Qed.
+Print Assumptions C13_decode_what_python_encodes_protocol1.
+
+(* protocol 0 (text opcodes: MARK LIST PUT, UNICODE, INT, FLOAT, TUPLE, APPEND): names of the characters pickle writes verbatim
+   (ASCII without NUL, LF, CR, SUB, backslash), integers 0 <= n < 2^31 as decimal text, floats as their repr().  The float
+   text goes through the two oracles of the run: frepr (CPython's repr, by bits) and pf (strconv.ParseFloat); the theorem
+   holds for every pair with pf (frepr b) = Some b whose texts contain no line break — both correctly rounded in reality. *)
+Theorem C13_decode_what_python_encodes_protocol0 :
+  forall pf frepr,
+    (forall b, pf (frepr b) = Some b) -> (forall b, ~ In 10 (frepr b) /\ ~ In 13 (frepr b)) ->
+    forall ds, forallb dp_ok0 ds = true ->
+      unpickle pf false (py_dumps0 frepr ds)
+      = RDone (VList (map (fun d => VTuple [VStr (d_name d); VTuple [num_val (d_ts d); num_val (d_val d)]]) ds)).
+Proof. exact unpickle_py_dumps0. Qed.
+Print Assumptions C13_decode_what_python_encodes_protocol0.
+
+Theorem C13_frame_then_rest_protocol0 :
+  forall pf frepr,
+    (forall b, pf (frepr b) = Some b) -> (forall b, ~ In 10 (frepr b) /\ ~ In 13 (frepr b)) ->
+    forall fmt6 fmt0 f ds rest,
+      frame_ok0 frepr ds ->
+      handle_stream pf fmt6 fmt0 (S f) (frame_of (py_dumps0 frepr ds) ++ rest)
+      = let (evs, fn) := handle_stream pf fmt6 fmt0 f rest in
+        (map (fun d => EvLine (line_of fmt6 fmt0 d)) ds ++ evs, fn).
+Proof. exact handle_frame0. Qed.
+Print Assumptions C13_frame_then_rest_protocol0.
+
+(* one connection, any number of frames, each of protocol 1, 2, 3 or 4 *)
 Theorem C13_frames_become_lines_mixed_protocols :
   forall pf fmt6 fmt0 (pss : list (N * list pydp)),
     Forall frame_ok4 pss ->
@@ -79,6 +111,13 @@ Example C13_negative_binint_refuted :
     [0;0;0;28; 128;2;93;113;0;88;1;0;0;0;97;113;1;75;1;74;255;255;255;255;134;113;2;134;113;3;97;46]
   = ([EvLine [97; 32; 52;50;57;52;57;54;55;50;57;53; 32; 49]], FinOk).
 Proof. exact negative_binint_refuted. Qed.
+
+Example C13_protocol0_nonvacuous :
+  (* pickle.dumps([("a b'", (1, 1.5))], 0), with repr(1.5) = "1.5" *)
+  py_dumps0 (fun _ => [49; 46; 53]) [ {| d_name := [97; 32; 98; 39]; d_ts := PyInt 1; d_val := PyFloat 4609434218613702656 |} ]
+  = [40;108;112;48;10; 40;86;97;32;98;39;10;112;49;10; 40;73;49;10;70;49;46;53;10;116;112;50;10;116;112;51;10;97;46]
+  /\ dp_ok0 {| d_name := [97; 32; 98; 39]; d_ts := PyInt 1; d_val := PyFloat 4609434218613702656 |} = true.
+Proof. vm_compute. auto. Qed.
 
 Example C13_nonvacuous :
   frame_ok 2 [ {| d_name := [102;111;111]; d_ts := PyInt 1500000000; d_val := PyFloat 4609434218613702656 |};
